@@ -71,10 +71,11 @@ def check_c06(prog, rep, tier, cfg):
         inventory(rep, R, "readers of %s.ws_len" % short(adt), r, TOKEN_IMPLS + ["<pasfmt_core::lang::Token as core::convert::From>::from"], "only the accessor impls split text into whitespace/content")
     nl = readers(prog, FD, "newlines_before")
     inventory(rep, R, "readers of FormattingData.newlines_before", nl,
-              [OLF + "InternalOptimisingLineFormatter::reconstruct_solution", ZERO_FN, RCL] + CURSOR_BODIES, "original newline counts may only be read for the blank-line clamp, line-start space removal (after the wrapper wrote them) and emission")
+              [OLF + "InternalOptimisingLineFormatter::reconstruct_solution", ZERO_FN, RCL, TS + "max_one_either_side::{closure#0}"] + CURSOR_BODIES,
+              "original newline counts may only be read for the blank-line clamp, line-start space removal (after the wrapper wrote them), emission, and the separated-or-not test of max_one_either_side")
     sp = readers(prog, FD, "spaces_before")
     inventory(rep, R, "readers of FormattingData.spaces_before", sp,
-              [OLF_FMT + "::{closure#0}", RCL, TS + "max_one_either_side::{closure#0}", TS + "max_one_either_side::{closure#1}"] + CURSOR_BODIES,
+              [OLF_FMT + "::{closure#0}", RCL, TS + "max_one_either_side::{closure#0}"] + CURSOR_BODIES,
               "original spacing may only be read by max_one_either_side (0-vs-some between literal-like tokens), the length table and emission")
     # the one place where the original newline count influences the result: clamp(1,2) on the first token of a line
     rs = prog.body(OLF + "InternalOptimisingLineFormatter::reconstruct_solution")
@@ -128,6 +129,23 @@ def check_c06(prog, rep, tier, cfg):
                           instance={"field": f, "store_blocks": len(st)})
 
     gap_coverage(prog, rep, "C06.c")
+    # ---------------------------------------------------------------- C06.d the only reader of the input's blank count asks `separated or not`, and a line break counts as separation
+    R = "C06.d"
+    n = 0
+    for b2 in prog.bodies.values():
+        if not b2.npath.startswith(TS):
+            continue
+        rd = [a for a in prog.field_accesses(FD, "spaces_before", within={b2.npath}) if a[3] in ("read", "ref")]
+        if not rd:
+            continue
+        n += 1
+        ret = canon(b2, {"k": "copy", "place": {"l": 0, "p": []}})
+        base = [x for x in (ret.replace("(", ",").replace(")", ",").split(",")) if x.endswith(".spaces_before")]
+        ok = bool(base) and all(x[:-len("spaces_before")] + "newlines_before" in ret for x in base) and ret.startswith("min(") and ret.endswith(",1)")
+        rep.check(ok, R, "separation:" + short(b2.npath),
+                  "%s derives a space decision from the input's blank count alone (%s): after an input line break that count is the next line's indentation, so `a⏎b` (b at column 0) and `a b` format differently" % (short(b2.npath), ret),
+                  where="%s:%d" % (b2.file, b2.line), instance={"body": short(b2.npath), "value": ret})
+    rep.floor(R, "readers of the input's blank count in the spacing rule", n, 1)
 
 
 def gap_coverage(prog, rep, R):
@@ -374,7 +392,115 @@ def getter_use_discipline(prog, rep, R):
     rep.floor(R, "getter calls inside the emitters", n, 5)
 
 
+def line_comment_trailing_blanks(prog, rep, R):
+    """C08.d — a line comment leaves format_line_comment without trailing blanks on every path: a path that does not replace the text is taken
+    only when `trim_ascii_end` of the text (or of a suffix of it) has the same length as the untrimmed one; a path that replaces it either
+    truncates the new text to its trim_ascii_end, ends it with a trimmed piece, or runs under that same equality."""
+    import re as _re
+    import slices
+    b = prog.body("pasfmt_core::rules::comment_contents::format_line_comment")
+    if not rep.check(b is not None, R, "anchor:format_line_comment", "format_line_comment not found"):
+        return
+    try:
+        tb = Table(prog, b)
+    except Exception as e:
+        rep.fail(R, "line-comment-table", "format_line_comment is not a loop-free classifier any more: %s" % e)
+        return
+
+    def is_content(t):
+        return t[0] == "call" and t[1].endswith("::get_content") and t[2] == (("arg", 1),)
+    ev = slices.SliceEval(prog, b, is_content)
+    # names of &str values that reach the end of the token's text (the text itself and its suffixes)
+    reaches_end = set()
+    for c in b.calls():
+        if (c.callee or "") in ("core::str::trim_ascii_end", "core::str::len", "core::str::is_empty"):
+            t = slices.t_operand(b, c.args[0], 0, (), c.bb)
+            sl = ev.slice(t)
+            if sl is not None and slices.lin_eq(sl[1], ev.L):
+                reaches_end.add(canon(b, c.args[0]))
+    def split_call(x):
+        """'F(a,b)' -> ('F', ['a', 'b']) with balanced parentheses / braces; None if x is not of that form"""
+        i = x.find("(")
+        if i <= 0 or not x.endswith(")"):
+            return None
+        name, body, args, depth, cur = x[:i], x[i + 1:-1], [], 0, ""
+        for ch in body:
+            if ch in "([{":
+                depth += 1
+            elif ch in ")]}":
+                depth -= 1
+            if ch == "," and depth == 0:
+                args.append(cur)
+                cur = ""
+            else:
+                cur += ch
+        args.append(cur)
+        return name, args
+
+    def reaches(x, depth=0):
+        """the &str named x (canonical name as printed by the table engine) is the token's text or a suffix of it"""
+        if depth > 8:
+            return False
+        if x == "get_content(arg1)" or x in reaches_end:
+            return True
+        if x.endswith("@Some.0"):
+            sc = split_call(x[:-7])
+            return bool(sc) and sc[0] in ("strip_prefix", "strip_prefix_of") and reaches(sc[1][0], depth + 1)
+        sc = split_call(x)
+        if sc and sc[0] == "unwrap_or" and len(sc[1]) == 2:
+            opt = split_call(sc[1][0])
+            return bool(opt) and opt[0] == "strip_prefix" and reaches(opt[1][0], depth + 1) and reaches(sc[1][1], depth + 1)
+        return False
+
+    def trailing_test(key):
+        """(op, X) if key is `Eq|Ne(len(trim_ascii_end(X)), len(X))` in either order"""
+        sc = split_call(key)
+        if not sc or sc[0] not in ("Eq", "Ne") or len(sc[1]) != 2:
+            return None
+        parts = [split_call(a) for a in sc[1]]
+        if not all(p and p[0] == "len" and len(p[1]) == 1 for p in parts):
+            return None
+        inner = [p[1][0] for p in parts]
+        for a, o in ((inner[0], inner[1]), (inner[1], inner[0])):
+            t = split_call(a)
+            if t and t[0] == "trim_ascii_end" and len(t[1]) == 1 and t[1][0] == o:
+                return sc[0], o
+        return None
+    bad = []
+    n = 0
+    for (cons, _res), calls in zip(tb.rows, tb.calls):
+        if any(c[0] == "is" and c[1].startswith("strip_prefix(get_content(arg1),") and c[2] == "None" for c in cons):
+            continue            # not a `//` comment
+        names = [nm.split("::")[-1] for nm, _ in calls]
+        # infeasible: the option was filled by get_or_insert_with and is then found empty
+        if "get_or_insert_with" in names and any(c[0] == "is" and c[2] == "None" and c[1].startswith("var:") for c in cons):
+            continue
+        n += 1
+        no_trailing = False
+        for c in cons:
+            if c[0] != "cond":
+                continue
+            m = trailing_test(c[1])
+            if m and reaches(m[1]):
+                equal = (c[2] == 0) if m[0] == "Ne" else (c[2] != 0)
+                no_trailing = no_trailing or equal
+        if "set_content" not in names:
+            if not no_trailing:
+                bad.append(("keeps the old text", sorted(str(c[1])[:60] + "=" + str(c[2]) for c in cons if c[0] == "cond")))
+            continue
+        trunc = [a for nm, a in calls if nm.endswith("String::truncate")]
+        trimmed_by_truncate = any(a and a[-1].startswith("len(trim_ascii_end(") for a in trunc)
+        pushes = [a for nm, a in calls if nm.endswith("String::push_str")]
+        lt = split_call(pushes[-1][-1]) if pushes else None
+        last_trimmed = bool(lt) and lt[0] == "trim_ascii_end" and reaches(lt[1][0]) and not trunc
+        if not (no_trailing or trimmed_by_truncate or last_trimmed):
+            bad.append(("replaces the text", sorted(str(c[1])[:60] + "=" + str(c[2]) for c in cons if c[0] == "cond")))
+    rep.check(n >= 4 and not bad, R, "line-comment-ends-without-blanks", "%d of %d paths through format_line_comment can leave a line comment with trailing blanks; first: %s" % (len(bad), n, bad[:1]),
+              where="%s:%d" % (b.file, b.line), instance={"paths": n, "texts_reaching_the_end": sorted(reaches_end), "violating": [x[0] + ": " + "; ".join(x[1]) for x in bad[:3]]})
+
+
 def check_c08(prog, rep, tier, cfg):
+    line_comment_trailing_blanks(prog, rep, "C08.d")
     # ---------------------------------------------------------------- C08.a emission order and counter<->string pairing
     R = "C08.a"
     cl = prog.body(RCL)
@@ -976,6 +1102,28 @@ def check_c11(prog, rep, tier, cfg):
             # value copied into a struct / passed on
             rep.fail(R, "use:%s:escapes" % short(b.npath), "max_line_length is read in %s but not used in a comparison (value escapes)" % short(b.npath), where="%s:%d" % (b.file, abs(s.get("line", 0))))
     rep.floor(R, "arithmetic/comparison uses of max_line_length", n, 3)
+    # ---------------------------------------------------------------- C11.d memoised measurements do not outlive the text they were taken from
+    R = "C11.d"
+    of = prog.body(OLF_FMT)
+    if rep.check(of is not None, R, "anchor:OLF::format", "OptimisingLineFormatter::format not found"):
+        ms = of.calls_to(OLF + "multiline_strings::StringFormatter::format_multiline_strings")
+        fls = of.calls_to(OLF + "InternalOptimisingLineFormatter::format_line")
+        # memo fields of the wrapper: whatever its methods reach through RefCell::borrow / borrow_mut
+        memo_fields = sorted({canon(b2, c.args[0]).split(".")[-1] for b2 in prog.bodies.values() if b2.npath.startswith(OLF + "InternalOptimisingLineFormatter::")
+                              for c in b2.calls() if (c.callee or "") in ("core::cell::RefCell::borrow", "core::cell::RefCell::borrow_mut")})
+        rep.check(bool(memo_fields), R, "anchor:memo-fields", "no RefCell-held memo found in InternalOptimisingLineFormatter (the rule's structural basis is gone)", instance={"memo_fields": memo_fields})
+        if rep.check(len(ms) == 1 and len(fls) >= 2, R, "anchor:rewrite-then-reflow", "string rewrite followed by a second wrapping pass not found (rewrites %d, format_line calls %d)" % (len(ms), len(fls))):
+            m = ms[0]
+            later = [f for f in fls if f.bb in of.reach_from(m.bb) and m.bb not in of.reach_from(f.bb)]
+            clears = [c for c in of.calls() if (c.callee or "").endswith("HashMap::clear") and any(mf in canon(of, c.args[0]) for mf in memo_fields)]
+            rep.note("memo fields of the wrapper: %s" % memo_fields)
+            for f in later:
+                stale = of.can_reach_avoiding(m.bb, {f.bb}, {c.bb for c in clears})
+                rep.check(not stale, R, "stale-memo:" + ",".join(memo_fields),
+                          "the child-line solutions memoised during the first wrapping pass (%s) are still in place when lines are wrapped again after their multi-line strings were rewritten: "
+                          "child lines are then laid out from measurements of the old text, so a line that fits at a narrower wrap_column can exceed a wider one" % ", ".join(memo_fields),
+                          where=f.where(), instance={"memo": memo_fields, "reflow_call": "format_line after format_multiline_strings", "cleared_between": not stale})
+            rep.floor(R, "wrapping calls after the string rewrite", len(later), 1)
     # ---------------------------------------------------------------- C11.c what is compared with the limit is the column the text will really occupy
     newline_use_discipline(prog, rep, "C11.c")
     multiline_measure(prog, rep, "C11.c")
